@@ -363,7 +363,8 @@ pub fn enumerate(bases: &[Base], ctx: &Ctx, want: &dyn Fn(u64) -> bool, f: &mut 
     // (a'') quick: the record type code together with the record content length / the header
     //       type (e.g. a NullShape record with a negative length); thorough: all pairs below
     if !thorough {
-        let pv: [i32; 7] = [0, -1, 2, i32::MIN, -(1 << 30), i32::MAX, 1 << 30];
+        // (small negative lengths move a reader that trusts them BACKWARDS: -4 words is exactly one record header)
+        let pv: [i32; 12] = [0, -1, 2, i32::MIN, -(1 << 30), i32::MAX, 1 << 30, -2, -4, -6, -8, 1];
         for (bi, b) in bases.iter().enumerate() {
             let recs = rawshp::walk(&b.shp);
             for rec in recs.iter() {
